@@ -182,6 +182,13 @@ Theorem C14x_neighbour_counts_invariant : forall p p' u, (forall v, p' (phi v) =
   nbr_count g' p' (phi u) = nbr_count g p u.
 Proof. exact (iso_nbr_count g g' phi Hadj). Qed.
 
+(* the degree-distribution helpers get_Pk / get_PGF / get_PGFPrime / get_PGFDPrime / estimate_R0 / get_Pnk (Model/Aux.v) *)
+Theorem C14x_degree_helpers_invariant :
+  (forall x, psi (degseq g') x = psi (degseq g) x /\ psiP (degseq g') x = psiP (degseq g) x /\ psiDP (degseq g') x = psiDP (degseq g) x) /\
+  (forall T, estimate_R0 (degseq g') T = estimate_R0 (degseq g) T) /\
+  (forall k1 k2, Pnk (nd_of g') k1 k2 == Pnk (nd_of g) k1 k2).
+Proof. exact (conj (iso_psi g g' phi Hnodes Hadj) (conj (iso_estimate_R0 g g' phi Hnodes Hadj) (iso_Pnk g g' phi WG Hnodes Hadj))). Qed.
+
 (* whole outputs.  All 17 modelled entry points, every request (also malformed ones: the same error), full data or not,
    every solver that is a function of the numbers it is given: the same error, or outputs with the same series names whose
    values are equal rationals at every time index (per degree class and per pair of classes too) *)
@@ -316,6 +323,7 @@ Print Assumptions C14x_degree_distribution_invariant.
 Print Assumptions C14x_get_Nk_and_IC_invariant.
 Print Assumptions C14x_get_NkNl_and_IC_invariant.
 Print Assumptions C14x_neighbour_counts_invariant.
+Print Assumptions C14x_degree_helpers_invariant.
 Print Assumptions C14x_wrapper_outputs_invariant.
 Print Assumptions C14x_wrapper_outputs_identical.
 Print Assumptions C14x_wrapper_row0_invariant.
